@@ -111,6 +111,54 @@ func checkPerFieldState(p *Program, r *Result, fns []*ssa.Function) {
 			}
 		}
 	}
+	// the per-line construction may live in a helper called from the loop: the composites are then built from the
+	// helper's parameters, and what must not be loop-carried are the arguments at the call in the loop
+	builders := map[*ssa.Function]bool{}
+	for _, fn := range fns {
+		for _, in := range instrsOf(fn) {
+			if st, ok := in.(*ssa.Store); ok {
+				if tn, _, _, ok := fieldRef(st.Addr); ok && (tn == "Type" || tn == "Field") {
+					builders[fn] = true
+				}
+			}
+		}
+	}
+	for _, fn := range fns {
+		hdr := loopHeaders(fn)
+		if len(hdr) == 0 {
+			continue
+		}
+		k := 0
+		for _, ci := range callsIn(fn, func(ci ssa.CallInstruction) bool { return builders[ci.Common().StaticCallee()] && ci.Common().StaticCallee() != fn }) {
+			inLoop := false
+			for h := range hdr {
+				if h.Dominates(ci.Block()) {
+					inLoop = true
+				}
+			}
+			if !inLoop {
+				continue
+			}
+			n++
+			k++
+			construct := "arguments of the per-field builder " + trimPkg(funcName(ci.Common().StaticCallee()))
+			if k > 1 {
+				construct += " #" + itoa(k-1)
+			}
+			bad := ""
+			for _, a := range ci.Common().Args {
+				if src := loopCarried(a, hdr, map[ssa.Value]bool{}); src != "" {
+					bad = src
+				}
+			}
+			if bad != "" {
+				r.violated("C19.l", funcName(fn), construct, p.pos(ci.Pos()),
+					bad+" is handed to the function that builds the Field for the current line: what a previous field left behind classifies this field")
+			} else {
+				r.held("C19.l", funcName(fn), construct, p.pos(ci.Pos()), "no loop-carried value is passed")
+			}
+		}
+	}
 	if n == 0 {
 		r.undecided("C19.l", "ros1msg", "Field/Type composites built in a loop", "", "none found; anchor moved")
 	}
